@@ -669,7 +669,42 @@ func c04mutate(rng *core.Rng, msgs [][]byte) ([][]byte, string) {
 	i := rng.Intn(len(out))
 	m := out[i]
 	vals := []uint32{0, 1, 3, 4, 5, 0x7fffffff, 0x80000000, 0xffffffff, 0xfffffffe, c04L + 4, c04L + 5, 65535, 65536, 0x00ffffff, 0x0bebc200, 0x3fffffff}
-	switch k := rng.Intn(13); k {
+	hostile := func() []byte {
+		// bytes no text is made of: continuation bytes without a lead byte, lead bytes without continuation,
+		// overlong and surrogate encodings - in lengths around what a log line or a fixed buffer may hold
+		pat := core.Pick(rng, [][]byte{{0x80}, {0xbf}, {0xaa}, {0xc0}, {0xff}, {0xe2, 0x82}, {0xf4, 0x90}, {0xed, 0xa0, 0x80}, {0xc0, 0xaf}})
+		n := core.Pick(rng, []int{1, 2, 3, 63, 64, 65, 255, 256, 257, 511, 512, 513, 514, 600, 1023, 1025, 4097})
+		return bytes.Repeat(pat, n/len(pat)+1)[:n]
+	}
+	switch k := rng.Intn(15); k {
+	case 13, 14: // a text field of a well-framed message replaced by hostile bytes; the frame stays well-formed
+		hdr := 5
+		if i == 0 || (len(m) >= 8 && m[0] == 0) {
+			hdr = 8
+		}
+		var runs [][2]int
+		for a := hdr; a < len(m); {
+			b := a
+			for b < len(m) && m[b] != 0 {
+				b++
+			}
+			if b < len(m) && b > a {
+				runs = append(runs, [2]int{a, b})
+			}
+			a = b + 1
+		}
+		if len(runs) == 0 {
+			return out, "hostile-text(no text)"
+		}
+		r := core.Pick(rng, runs)
+		nm := append(append(append([]byte(nil), m[:r[0]]...), hostile()...), m[r[1]:]...)
+		if hdr == 8 {
+			binary.BigEndian.PutUint32(nm, uint32(len(nm)))
+		} else {
+			binary.BigEndian.PutUint32(nm[1:], uint32(len(nm)-1))
+		}
+		out[i] = nm
+		return out, "hostile-text"
 	case 11, 12: // a well-framed Bind whose three counts are independent of each other (fewer / more format codes than values)
 		nf, nv, nr := rng.Intn(6), rng.Intn(6), rng.Intn(6)
 		pf, rf := make([]int16, nf), make([]int16, nr)
@@ -683,6 +718,9 @@ func c04mutate(rng *core.Rng, msgs [][]byte) ([][]byte, string) {
 		for j := range params {
 			if rng.Intn(5) > 0 {
 				params[j] = []byte(fmt.Sprint(rng.Intn(100000)))
+				if rng.Intn(5) == 0 {
+					params[j] = hostile()
+				}
 			}
 		}
 		b := pg.Bind(core.Pick(rng, []string{"", "p"}), core.Pick(rng, []string{"", "s", "b", "nosuch"}), pf, params, rf)
